@@ -69,6 +69,7 @@ var Mutants = map[string][]Mutant{
 		{"Paths.Settle ignores its rule", "path_intersection.go", `return bentleyOttmann\(ps, nil, opSettle, fillRule\)`, `return bentleyOttmann(ps, nil, opSettle, NonZero)`, "E9.wrapper"},
 	},
 	"C03": {
+		{"Join takes the close point before replaying the first command", "path.go", `(\td := q\.d\[cmdLen\(MoveToCmd\):\]\n)((?:.*\n)*?)(\ti := len\(p\.d\)\n)\tend := p\.StartPos\(\)\n`, "${1}\tend := p.StartPos()\n${2}${3}", "E11.stale-after-builder"},
 		{"closed-loop quadratic flattened to its start point", "path_util.go", `(?s)if chord\.Dot\(chord\) == 0\.0 \{.*?\} else if a := `, "if a := ", "E10.flat-rest-turning-point"},
 		{"flat rest of a quadratic emitted as its chord alone", "path_util.go", `(?s)(\t\tif t >= 1\.0 \{\n)\t\t\t// the rest is flat, but a control point.*?(\t\t\tbreak\n\t\t\}\n\n\t\t_, _, _, p0, p1, p2 = quadraticBezierSplit)`, "${1}${2}", "E10.flat-rest-turning-point"},
 		{"position of the rest not clamped after the join (reverts fix ff037ad)", "path.go", `(?s)(\t\t\tp = p\.Join\(r\) // join the rest of the base path\n)\t\t\tif len\(p\.d\) < i \{\n[^\n]*\n\t\t\t\ti = len\(p\.d\)\n\t\t\t\}\n`, "$1", "E11.cursor-revalidated-after-join"},
